@@ -1580,6 +1580,56 @@ func c13Linked(p *core.Program, r *core.Report, t *types.Named, rule string) {
 			sizeField = ints[0]
 		}
 	}
+	// the two ends kept in a fixed array (ends[front], ends[back]) instead of two fields: the slot a new
+	// node takes as its `next` is the first end, the one it takes as its `prev` the last
+	endsField := ""
+	endRole := map[int64]string{}
+	if st, ok := t.Underlying().(*types.Struct); ok {
+		for i := 0; i < st.NumFields(); i++ {
+			if at, ok := st.Field(i).Type().Underlying().(*types.Array); ok && at.Len() == 2 {
+				if _, isPtr := at.Elem().(*types.Pointer); isPtr {
+					endsField = st.Field(i).Name()
+				}
+			}
+		}
+	}
+	if endsField != "" {
+		for _, fi := range cands {
+			if fi.Decl.Body == nil {
+				continue
+			}
+			finfo := fi.Pkg.TypesInfo
+			ast.Inspect(fi.Decl.Body, func(n ast.Node) bool {
+				cl, ok := n.(*ast.CompositeLit)
+				if !ok {
+					return true
+				}
+				for _, el := range cl.Elts {
+					kv, ok := el.(*ast.KeyValueExpr)
+					if !ok {
+						continue
+					}
+					key, _ := kv.Key.(*ast.Ident)
+					ix, ok := ast.Unparen(kv.Value).(*ast.IndexExpr)
+					if key == nil || !ok {
+						continue
+					}
+					if sel, ok := ast.Unparen(ix.X).(*ast.SelectorExpr); !ok || sel.Sel.Name != endsField {
+						continue
+					}
+					if k, ok := constIntOf(finfo, ix.Index); ok {
+						switch key.Name {
+						case "next":
+							endRole[k] = "first"
+						case "prev":
+							endRole[k] = "last"
+						}
+					}
+				}
+				return true
+			})
+		}
+	}
 	checkedFns := map[*types.Func]bool{}
 	for _, fi := range cands {
 		if fi.Decl.Body == nil {
@@ -1589,8 +1639,27 @@ func c13Linked(p *core.Program, r *core.Report, t *types.Named, rule string) {
 		if on, ok := ownerName[fi]; ok {
 			rn = on
 		}
+		// ends[k] with k constant reads as the end it stands for, wherever it occurs
+		endText := map[string]string{}
+		if endsField != "" {
+			finfoN := fi.Pkg.TypesInfo
+			ast.Inspect(fi.Decl.Body, func(n ast.Node) bool {
+				if ix, ok := n.(*ast.IndexExpr); ok {
+					if sel, ok := ast.Unparen(ix.X).(*ast.SelectorExpr); ok && sel.Sel.Name == endsField {
+						if k, ok := constIntOf(finfoN, ix.Index); ok && endRole[k] != "" {
+							endText[stripSpaces(types.ExprString(ix))] = stripSpaces(types.ExprString(sel.X)) + "." + endRole[k]
+						}
+					}
+				}
+				return true
+			})
+		}
 		norm := func(e ast.Expr) string {
-			s := strings.ReplaceAll(stripSpaces(types.ExprString(e)), rn+".", "")
+			s := stripSpaces(types.ExprString(e))
+			for from, to := range endText {
+				s = strings.ReplaceAll(s, from, to)
+			}
+			s = strings.ReplaceAll(s, rn+".", "")
 			if s == sizeField {
 				return "size"
 			}
@@ -1608,6 +1677,12 @@ func c13Linked(p *core.Program, r *core.Report, t *types.Named, rule string) {
 						rs = norm(v.Rhs[i])
 					}
 					switch {
+					case endsField != "" && ls == endsField:
+						// the whole pair replaced by an empty literal: both ends nil
+						if cl, ok := ast.Unparen(v.Rhs[i]).(*ast.CompositeLit); ok && len(cl.Elts) == 0 {
+							touches = true
+							out = append(out, paths.Event{Kind: "SET", Arg: "first=nil", Pos: v.Pos()}, paths.Event{Kind: "SET", Arg: "last=nil", Pos: v.Pos()})
+						}
 					case ls == "first" || ls == "last":
 						touches = true
 						out = append(out, paths.Event{Kind: "SET", Arg: ls + "=" + rs, Pos: v.Pos()})
